@@ -57,6 +57,28 @@ def machine(mod):
     m = Machine(mod, FC.FClassDomain())
     m.summaries = SUMMARIES
     m.dom.m = m
+
+    def hook(fname, ins, r):
+        # every computed value is one run-time number: a tag per dynamic instance lets later comparisons narrow it (the count of
+        # decided atoms and of earlier tags on the path makes the tag deterministic when the path is replayed)
+        if isinstance(r, FC.FV) and r.tag is None:
+            n = m.sign_facts.get("ntags", 0)
+            m.sign_facts["ntags"] = n + 1
+            return FC.FV(r.cls, ("v", n))
+        return r
+    m.value_hook = hook
+    inner = m.call
+
+    def call(fname, args):
+        # when a function returns, what the path learnt of tagged values is applied to the values held in memory, so that the
+        # snapshot explore() takes shows them narrowed (the facts themselves are per path and are gone afterwards)
+        r = inner(fname, args)
+        for cells in m.mem.values():
+            for off, cell in list(cells.items()):
+                if isinstance(cell, tuple) and len(cell) == 2 and isinstance(cell[0], FC.FV):
+                    cells[off] = (m.dom.nar(cell[0]), cell[1])
+        return m.dom.nar(r) if isinstance(r, FC.FV) else r
+    m.call = call
     return m
 
 
@@ -137,3 +159,46 @@ def same_sign_rule(rep, opt="-O2"):
         else:
             rep.ok("haveSameSign(%s, %s) = %s on every path" % (a, b, want), sample=(a == FC.NEG and b == FC.POS))
     rep.floor("sign-class pairs", 16)
+
+
+def estimate_rule(rep, opt="-O2"):
+    """ESTIMATE-NOT-NAN (C09): with a valid bracket (finite bounds, function values of opposite signs) getNextRootEstimate never returns
+    true with a NaN in x, whatever the magnitudes (differences of finite values may overflow, their quotient may then be inf/inf)."""
+    mod = lower(rep.pid, opt)
+    shim = "verif_next_estimate"
+    if shim not in mod["functions"]:
+        raise AnalysisBroken("shim %s missing from the lowered driver" % shim)
+    fin = (FC.NEG, FC.ZERO, FC.POS)
+    for (fa, fb) in ((FC.NEG, FC.POS), (FC.POS, FC.NEG)):
+        for xa, xb in ((a, b) for a in fin for b in fin if FC.ORDER[a] <= FC.ORDER[b]):
+            rep.count("bracket class combinations")
+            m = machine(mod)
+            box = {}
+
+            def make_args(mm):
+                xp = mm.alloc("x")
+                mm.store(ptr(xp, 0), FC.FV(FC.ALL, "x"), 8)
+                box["x"] = xp
+                return [ptr(xp, 0), FC.FV({xa}, "xmin"), FC.FV({xb}, "xmax"), FC.FV({fa}, "fmin"), FC.FV({fb}, "fmax")]
+            try:
+                res = explore(m, shim, make_args, max_paths=1024)
+            except Unsupported as e:
+                raise AnalysisBroken("getNextRootEstimate: outside the interpreted fragment: %s" % e)
+            bad = None
+            for path, ret, mem, trace, assum in res:
+                if isinstance(ret, int) and ret & 1:
+                    xv = mem[box["x"]].get(0)
+                    if isinstance(xv, tuple) and len(xv) == 2 and isinstance(xv[1], int):
+                        xv = xv[0]          # (value, size)
+                    if not isinstance(xv, FC.FV) or FC.NAN in xv.cls:
+                        bad = (path, xv)
+                        break
+            if bad:
+                rep.fail("ESTIMATE-NOT-NAN@getNextRootEstimate#xmin=%s,xmax=%s,fmin=%s,fmax=%s" % (xa, xb, fa, fb),
+                         "BissectionAlgorithmBase::getNextRootEstimate can return true with x = %s for a valid bracket (xmin %s, xmax %s, fmin %s, fmax %s): "
+                         "the test that sends an estimate outside the bracket to the midpoint is false for a NaN, so the next evaluation is "
+                         "made at a NaN although a sign-changing bracket is known (path: %s)"
+                         % (bad[1], xa, xb, fa, fb, "; ".join("%s=%s" % (repr(a)[:60], d) for a, d in bad[0][-4:])))
+            else:
+                rep.ok("getNextRootEstimate: no NaN estimate for xmin %s, xmax %s, fmin %s, fmax %s (%d paths)" % (xa, xb, fa, fb, len(res)), sample=False)
+    rep.floor("bracket class combinations", 12)
